@@ -305,8 +305,13 @@ class QlassF(QCircuitWrapper):
         assert isinstance(fun_ast.body[0], ast.FunctionDef)
 
         if isinstance(f, str):
-            exec(f, globals())
-        original_f = eval(fun_ast.body[0].name) if isinstance(f, str) else f
+            # Run the source in its own namespace: a user function named like one of
+            # this module's globals must not rebind it
+            ns: Dict = dict(globals())
+            exec(f, ns)
+            original_f = ns[fun_ast.body[0].name]
+        else:
+            original_f = f
 
         def _do_translate(fun_ast, original_f):
             # print(ast.dump(fun_ast, indent=4))
